@@ -25,6 +25,7 @@
 //	     target is already refusing connections);   -> run=<ok|err|panic|hang> n=<samples>
 //
 //	gscn <iters> <answlog> <n> {<call> <payload> <srv> <pp>}*n    grpc/scenario gun, see grpcscn.go
+//	gcall <instances> <timeout-ms> <answlog> <n> {<call> <payload> <srv>}*n    grpc gun against a target that can be silent, see grpccall.go
 package main
 
 import (
@@ -35,6 +36,7 @@ import (
 	"os"
 	"strconv"
 	"strings"
+	"sync"
 
 	"github.com/antchfx/htmlquery"
 	"github.com/antchfx/xpath"
@@ -252,6 +254,8 @@ func runCase(line string) (out string) {
 		return runGrpc(t)
 	case "gscn":
 		return runGscn(t)
+	case "gcall":
+		return runGcall(t)
 	}
 	return "unknown-case"
 }
@@ -265,9 +269,42 @@ func main() {
 	}
 	vh.Main(gen, func(cases []string) []string {
 		out := make([]string, len(cases))
+		// gcall cases spend their time waiting for timeouts to pass: they run (three at a time) beside the other cases
+		var bg []int
 		for i, c := range cases {
-			out[i] = runCase(c)
+			if strings.HasPrefix(c, "gcall ") {
+				bg = append(bg, i)
+			}
 		}
+		bgDone := make(chan struct{})
+		if len(bg) > 0 {
+			gcallSetup()
+		}
+		go func() {
+			defer close(bgDone)
+			var wg sync.WaitGroup
+			next := make(chan int)
+			for w := 0; w < 3; w++ {
+				wg.Add(1)
+				go func() {
+					defer wg.Done()
+					for i := range next {
+						out[i] = runCase(cases[i])
+					}
+				}()
+			}
+			for _, i := range bg {
+				next <- i
+			}
+			close(next)
+			wg.Wait()
+		}()
+		for i, c := range cases {
+			if !strings.HasPrefix(c, "gcall ") {
+				out[i] = runCase(c)
+			}
+		}
+		<-bgDone
 		return out
 	})
 }
